@@ -253,6 +253,11 @@ const epoch = int64(1_600_000_000) * int64(time.Second)
 //go:norace
 func self() *thread {
 	e := cur
+	if e != nil && e.aborting {
+		// a deferred function of the code under test reached a hook while its thread is being
+		// unwound at the end of the execution
+		panic(abortSentinel)
+	}
 	if e != nil && e.running == nil && e.checking {
 		if e.checkThread == nil {
 			e.checkThread = &thread{id: -1, name: "check"}
